@@ -161,7 +161,7 @@ theorem runPass_keeps (Q : Seg → Prop) (hQ : ActionKeeps Q) (p : PassT) (c : C
       · rename_i c2 it hr
         cases e
         rw [noteLoop_seg]
-        exact ruleLoop_keeps Q hQ p fuel _ _ _ 0 (show Q (c.restartAt _).seg from h) hr
+        exact ruleLoop_keeps Q hQ p _ _ _ _ 0 (show Q (c.restartAt _).seg from h) hr
 
 theorem runRange_keeps (Q : Seg → Prop) (hQ : ActionKeeps Q) (passes : Array PassT) (c : Ctx) (lo hi fuel : Nat) (h : Q c.seg)
     {c' : Ctx} (e : runRange passes c lo hi fuel = .ok (some c')) : Q c'.seg := by
